@@ -21,6 +21,10 @@ func ZZ_C02_Typed() {
 		switch class {
 		case "ascii":
 			zzverif.Assume(r < 0x80)
+		case "special":
+			// the ASCII characters with a meaning of their own in the editor (quotes,
+			// brackets, backslash, comment and history characters), a letter and the blank
+			zzverif.Assume(r == 'a' || r == ' ' || r == '"' || r == '\'' || r == '\\' || r == '(' || r == ')' || r == '[' || r == '{' || r == '~' || r == '^' || r == '`' || r == '#' || r == '!')
 		case "latin1":
 			zzverif.Assume(r >= 0x80 && r <= 0xff)
 		case "bmp":
@@ -56,6 +60,9 @@ func ZZ_C02_Typed() {
 	zzverif.Note("typed", text)
 	zzverif.Note("got", line)
 	sfx := "/" + class
+	if class == "special" {
+		sfx = "/ascii"
+	}
 	zzverif.Assert(err == nil, "no-error"+sfx)
 	zzverif.Assert(line == text, "returns-what-was-typed"+sfx)
 }
